@@ -51,7 +51,8 @@ def _ctc_lists(names, xor=False, reqs=False):
     out = [[], [('AND', a, b)], [_chain('AND', [a, b, c])], [_chain('OR', [a, b, c, d])],
            [('IMPLIES', a, ('NOT', b, None)), ('EQUIVALENCE', c, ('OR', a, d))],
            [('NOT', _chain('AND', [a, b, c, d]), None)], [('OR', _chain('AND', [a, b, c]), _chain('OR', [b, c, d]))],
-           [a], [('NOT', a, None)], [('IMPLIES', ('IMPLIES', a, b), c)]]
+           [a], [('NOT', a, None)], [('IMPLIES', ('IMPLIES', a, b), c)], [('AND', a, b), ('AND', a, b)],
+           [('IMPLIES', a, b), ('IMPLIES', c, d), ('IMPLIES', a, b)]]
     if xor:
         out += [[('XOR', a, b)], [('EXCLUDES', a, ('AND', b, c))]]
     if reqs:
@@ -91,6 +92,9 @@ def cases(tier, seed):
     # ---- FaMa XML
     fama_models = structs + [_with(CAR5, ts) for ts in _ctc_lists(('Bb', 'Dc', 'Ad', 'Ee'), reqs=True)[-2:-1]]
     fama_models.append(_with(CAR5G, [('REQUIRES', 'Bb', 'Dc'), ('EXCLUDES', 'Ad', 'Ee'), ('REQUIRES', 'Ee', 'Bb')]))
+    fama_models.append(_with(CAR5G, [('REQUIRES', 'Bb', 'Dc'), ('EXCLUDES', 'Ad', 'Ee'), ('REQUIRES', 'Bb', 'Dc')]))
+    casey = M(F('Fa', [R(0, 1, [F('Cache')]), R(0, 1, [F('cache')]), R(0, 1, [F('Disk')]), R(0, 1, [F('disk')])]))
+    fama_models.append(_with(casey, [('REQUIRES', 'Cache', 'Disk'), ('REQUIRES', 'cache', 'disk'), ('EXCLUDES', 'Cache', 'disk')]))
     for m in fama_models:
         for ci in range(len(FAMA_CHOICES)):
             yield ('FAMA', m, (ci,))
@@ -100,6 +104,9 @@ def cases(tier, seed):
     for av in afm_attr_alphabet():
         afm_models.append(rt.deviation(CAR5, 1, ('attr', av)))
     afm_models.append(rt.deviation(rt.deviation(CAR5G, 3, ('attr', afm_attr_alphabet()[0])), 1, ('attr', afm_attr_alphabet()[3])))
+    two = rt.deviation(rt.deviation(CAR5, 1, ('attr', afm_attr_alphabet()[0])), 1, ('attr', afm_attr_alphabet()[2]))
+    afm_models.append(two)
+    afm_models.append(_with(two, [('REQUIRES', 'Dc', 'Ad'), ('NOT', ('AND', 'Bb', 'Ee'), None)]))
     cover = [_key(afm, c) for c in afm.covering_choices()]
     full = [_key(afm, c) for c in afm.all_choices()]
     for i, m in enumerate(afm_models):
@@ -292,7 +299,10 @@ def check(case):
         ob = bd.observe(fm)
     except Exception as exc:  # noqa: BLE001
         return [Fail('%s-valid-document-rejected:%s' % (kind, type(exc).__name__), {'doc': doc[:500], 'msg': str(exc)[:120]})]
-    rt.compare(FMT[kind], model, ob, out)
+    expected = model
+    if kind == 'AFM':
+        expected = (model[0], tuple(('e%d' % i, t) for i, t in enumerate(afm.expected_constraints(model, _unkey(afm, k)))))
+    rt.compare(FMT[kind], expected, ob, out)
     for f in out:
         f.clause = kind + '-' + f.clause
         f.detail = {'doc': doc[:500], 'info': f.detail}
